@@ -42,7 +42,8 @@ namespace sim
             case 3: run_with< 3 >( in, out ); break;
             case 4: run_with< 4 >( in, out ); break;
             case 5: run_with< 5 >( in, out ); break;
-            default: run_with< 6 >( in, out ); break;
+            case 6: run_with< 6 >( in, out ); break;
+            default: run_with< 7 >( in, out ); break;
          }
       }
 
